@@ -164,6 +164,22 @@ def matmul (a : Tensor S) (ta : Bool) (b : Tensor S) (tb : Bool) (c : Option (Te
   let outGroup := prod (outDims.drop leadingCount)
   slicedOp [a, b, cOperand c] (matmulOp rows cols sumLen ta tb setOutput outGroup) inDims outDims 2 0
 
+/-- source position, inside one image, of element `o` of the unrolled image:
+    `o = (((r * cCount + c) * depth + k) * fr + m) * fc + n` reads `image[k, m + sr·r, n + sc·c]` -/
+def unrollIdx (cols rows depth sr sc fr fc cCount : Nat) (o : Nat) : Nat :=
+  let nn := o % fc
+  let m := (o / fc) % fr
+  let k := (o / (fc * fr)) % depth
+  let c := (o / (fc * fr * depth)) % cCount
+  let r := o / (fc * fr * depth * cCount)
+  (nn + sc * c) + cols * ((m + sr * r) + rows * k)
+
+/-- the slice operation of `unroll_blocks`: one image in, its windows out -/
+def unrollOp (cols rows depth sr sc fr fc cCount total : Nat) (slices : List (List S)) : R (List S) :=
+  match slices with
+  | [x] => tabulateM (fun o => getR x (unrollIdx cols rows depth sr sc fr fc cCount o)) total
+  | _ => throw .modelGap
+
 /-- `unroll_blocks(image, strides, filter)` (im2col) -/
 def unrollBlocks (image : Tensor S) (sr sc fr fc : Nat) : R (Tensor S) := do
   let n := image.dims.length
@@ -177,18 +193,7 @@ def unrollBlocks (image : Tensor S) (sr sc fr fc : Nat) : R (Tensor S) := do
   let count := rCount * cCount
   let size := fr * fc
   let outDims := image.dims.take (n - 3) ++ [count, depth * size]
-  let op : List (List S) → R (List S) := fun slices =>
-    match slices with
-    | [x] => tabulateM (fun o =>
-        -- o = ((r * cCount + c) * depth + k) * fr + m) * fc + n
-        let nn := o % fc
-        let m := (o / fc) % fr
-        let k := (o / (fc * fr)) % depth
-        let c := (o / (fc * fr * depth)) % cCount
-        let r := o / (fc * fr * depth * cCount)
-        getR x ((nn + sc * c) + cols * ((m + sr * r) + rows * k))) (count * depth * size)
-    | _ => throw .modelGap
-  slicedOp [image] op image.dims outDims 3 0
+  slicedOp [image] (unrollOp cols rows depth sr sc fr fc cCount (count * depth * size)) image.dims outDims 3 0
 
 /-- Write (`acc = false`: assign, `true`: accumulate) `x` at position `i`. -/
 def putAt (acc : Bool) (v : List S) (i : Nat) (x : S) : R (List S) :=
